@@ -8,6 +8,7 @@ from ..core import Result
 PID = "C03"
 LEVEL = "exploration"
 RULE = (
+    "One spec in three has lived before (warm start): another model edited in place into this one or swapped into the old project object, or the model's own run cut short by max_time and then continued with one of the unequal initialize-flag combinations (state carried over and logs restarted, or state reset and logs appended), or a first run that does not initialize the logs. A 'pinned' profile makes several facility tasks insist on the same facility (fixed facility-ID lists, some with fixed worker-ID lists too). "
     'Hypothesis-generated contention-rich models (2-8 tasks, 0-4 workers, facilities, solo flags, fixed-ID lists, absences, all rules) simulated once under the observer. Oracle at the updated/allocated/recorded snapshots of every step and again on the logs: <=1 task per worker/facility, task-side lists == resource-side lists, holders READY/WORKING, resource WORKING <=> holds a task and not absent, FINISHED tasks hold nothing and are listed by nobody. Non-trivial = some step where a newly taken worker was also eligible for another READY/WORKING task, or a worker-facility pair was allocated; distinct by spec hash.'
 )
 ASSUMPTIONS = [
@@ -18,7 +19,7 @@ TECHNIQUE = 'property-based testing (Hypothesis): generated contention-rich mode
 LEVEL_TEXT = 'Generated-input search with invariant oracles over three live snapshots per step plus the logs; not a proof.'
 LEVEL_NOTE = "Trusts the step observer and the builder; absence of a resource is taken from the spec's absence lists."
 
-CFG = gen.Cfg(warm=4, onesided=4, facilities=True, max_workers=4, min_tasks=2, max_time=[40, 80], p_auto=12, abs_p=2, abs_size=6, abs_max=12,
+CFG = gen.Cfg(warm_modes=["morph", "graft", "carry", "append", "nolog"], warm=3, onesided=4, facilities=True, max_workers=4, min_tasks=2, max_time=[40, 80], p_auto=12, abs_p=2, abs_size=6, abs_max=12,
               work_pool=[0.0, 0.5, 1.0, 1.0, 2.0, 2.0, 3.0, 4.0])
 
 
@@ -27,32 +28,10 @@ CFG = gen.Cfg(warm=4, onesided=4, facilities=True, max_workers=4, min_tasks=2, m
 CFG_PIN = CFG.copy(p_fix=2, max_wps=2, max_facs_per_wp=2, max_comps=3, min_tasks=3, onesided=0)
 
 
-@st.composite
-def _pinned(draw, cfg):
-    spec = draw(gen.pairs_spec(cfg))
-    if spec["facs"]:
-        for ti, t in enumerate(spec["tasks"]):
-            if t["nf"] and draw(st.booleans()):
-                # the task insists on one facility that can really serve it; other tasks may get it first
-                fi = draw(st.integers(0, len(spec["facs"]) - 1))
-                f = spec["facs"][fi]
-                t["fixf"] = [fi]
-                f["skills"][str(ti)] = 1.0
-                f["solo"] = False
-                wp = spec["wps"][f["wp"]]
-                if ti not in wp["targets"]:
-                    wp["targets"] = sorted(wp["targets"] + [ti])
-                for w in spec["workers"]:
-                    if draw(st.booleans()):
-                        w["fsk"][str(fi)] = 1.0
-        gen.share_skills_by_name(spec)
-    return spec
-
-
 def strategy(tier):
     cfg = CFG if tier == "quick" else CFG.copy(max_tasks=12, max_workers=6)
     pin = CFG_PIN if tier == "quick" else CFG_PIN.copy(max_tasks=12, max_workers=6)
-    return st.one_of(gen.model_spec(cfg), gen.model_spec(cfg), _pinned(pin))
+    return st.one_of(gen.model_spec(cfg), gen.model_spec(cfg), gen.pinned_spec(pin))
 
 
 def budget(tier):
